@@ -29,7 +29,9 @@ REQUIRED = ['adapter/convert_plain', 'foreign_loop_futures', 'adapter/comm_threa
             'depth/2', 'depth/3', 'inner_first', 'outer_first', 'thread_mode', 'action_cases', 'callbacks_counted']
 EXHAUSTIVE = {'quick': False, 'thorough': False}
 BOUNDS = {'quick': 'depth<=3 exhaustive orders, depth 4 sampled (200), thread mode 120 cases', 'thorough': 'depth 4 all orders, thread mode 2000 cases'}
-OUTCOMES = [['value', 42], ['value', None], ['value', 0], ['exc', 'boom'], ['cancel']]
+# ('ISE:...': the failure is an asyncio.InvalidStateError -- e.g. the scheduled code asked a future for a result it does not have yet --
+# an exception like any other as far as the adapters are concerned)
+OUTCOMES = [['value', 42], ['value', None], ['value', 0], ['exc', 'boom'], ['cancel'], ['exc', 'ISE:not-ready']]
 
 
 class AdapterError(Exception):
@@ -38,6 +40,10 @@ class AdapterError(Exception):
 
     def __hash__(self):
         return hash(self.args)
+
+
+def _exc_for(tag):
+    return asyncio.InvalidStateError(tag) if str(tag).startswith('ISE:') else AdapterError(tag)
 
 
 def gen_cases(tier, seed):
@@ -103,7 +109,7 @@ def _expected(oc):
     if oc[0] == 'value':
         return ['result', oc[1]]
     if oc[0] == 'exc':
-        return ['exception', AdapterError(oc[1])]
+        return ['exception', _exc_for(oc[1])]
     return ['cancelled']
 
 
@@ -114,7 +120,7 @@ def _complete(fut, what, nxt):
     elif what[0] == 'value':
         fut.set_result(what[1])
     elif what[0] == 'exc':
-        fut.set_exception(AdapterError(what[1]))
+        fut.set_exception(_exc_for(what[1]))
     else:
         fut.cancel()
 
@@ -132,7 +138,7 @@ def run_comm_thread(case):
 
     async def handler(_comm, msg):
         if oc[0] == 'exc':
-            raise AdapterError(oc[1])
+            raise _exc_for(oc[1])
         return oc[1]
 
     conv = communications.convert_to_comm(handler, loop)
@@ -144,7 +150,7 @@ def run_comm_thread(case):
 
         def callback():
             if oc[0] == 'exc':
-                raise AdapterError(oc[1])
+                raise _exc_for(oc[1])
             return oc[1]
 
         conv = lambda _comm, _msg: proc._schedule_rpc(callback)  # noqa: E731
@@ -240,7 +246,7 @@ def run_case(case):
                 for _ in range(case.get('yields', 0)):
                     await asyncio.sleep(0)
                 if oc[0] == 'exc':
-                    raise AdapterError(oc[1])
+                    raise _exc_for(oc[1])
                 if oc[0] == 'cancel':
                     # the coroutine ends by cancellation (it awaits something that was cancelled)
                     inner = loop.create_future()
@@ -252,7 +258,7 @@ def run_case(case):
             if case.get('factory') == 'raises':
                 # "a function which creates the coroutine": the creating call itself fails (no coroutine ever exists)
                 def factory():
-                    raise AdapterError(oc[1])
+                    raise _exc_for(oc[1])
 
             holder = {}
 
@@ -306,7 +312,7 @@ def run_case(case):
             def callback():
                 if depth == 0:
                     if oc[0] == 'exc':
-                        raise AdapterError(oc[1])
+                        raise _exc_for(oc[1])
                     return oc[1]
                 return levels[0]
 
@@ -370,7 +376,7 @@ def _same(got, exp, adapter):
     if got[0] == 'exception':
         e = got[1]
         for _ in range(6):
-            if e == exp[1]:
+            if e == exp[1] or (type(e) is type(exp[1]) and not isinstance(e, AdapterError) and e.args == exp[1].args):
                 return True
             if adapter != 'schedule_rpc' or e is None:
                 break
